@@ -102,6 +102,20 @@ class Ctx:
             self.violations.append({"key": key, "what": str(what)[:600], "case": jsonable(case)})
         self.count("violations_" + key)
 
+    def exception(self, e, what, case, key="raises"):
+        """An exception escaped while driving the API: a violation if it travelled through
+        thejoker's code, a driver error (=> inconclusive) if it is the harness's own."""
+        import traceback as _tb
+        frames = _tb.extract_tb(e.__traceback__)
+        through = any("/thejoker/" in f.filename for f in frames)
+        case = dict(case)
+        case["tb"] = "".join(_tb.format_exception(type(e), e, e.__traceback__))[-900:]
+        if through:
+            self.violation(key, "%s: %r" % (what, e), case)
+        else:
+            self.inconclusive = "driver error: %s: %r\n%s" % (what, e, case["tb"])
+        return through
+
     def note(self, s):
         if len(self.notes) < 20:
             self.notes.append(str(s)[:400])
